@@ -125,6 +125,20 @@ fn main() {
                     std::process::exit(3);
                 });
             }
+            {
+                let out_path = out_path.clone();
+                vharness::viol::install_crash_handler(move |info, why| {
+                    let Some(info) = info else {
+                        println!("CRASH outside a library call: {why}");
+                        std::process::exit(4);
+                    };
+                    let hist = history_of(&info.hist);
+                    let v = json!({"stall": {"run": info.run, "at": info.at, "why": why, "history": hist.iter().map(|o| format!("{:?}", o)).collect::<Vec<_>>(), "history_ops": hist.iter().map(|o| json!({"kind": format!("{:?}", o.kind), "key_id": o.key, "rep": o.rep, "arg": o.arg})).collect::<Vec<_>>(), "op": info.op.map(|o| json!({"kind": format!("{:?}", o.kind), "key_id": o.key, "rep": o.rep, "arg": o.arg})), "seconds": 0}});
+                    let _ = std::fs::write(format!("{out_path}.stall"), serde_json::to_string_pretty(&v).unwrap());
+                    println!("CRASH {}", v);
+                    std::process::exit(3);
+                });
+            }
             let next = AtomicUsize::new(0);
             let results: Mutex<Vec<(usize, Value)>> = Mutex::new(vec![]);
             std::thread::scope(|sc| {
@@ -149,6 +163,13 @@ fn main() {
             std::fs::write(&out_path, serde_json::to_string(&out).unwrap()).expect("write out");
         }
         Some("replay") => {
+            let path = args[2].clone();
+            vharness::viol::install_crash_handler(move |_, why| {
+                let prop = std::fs::read_to_string(&path).ok().and_then(|s| serde_json::from_str::<Value>(&s).ok()).and_then(|v| v["property"].as_str().map(|s| s.to_string())).unwrap_or_default();
+                println!("observed: {why} while replaying");
+                println!("VIOLATION property={prop} replay={path}");
+                std::process::exit(1);
+            });
             let code = registry::replay(&args[2]);
             std::process::exit(code);
         }
